@@ -8,7 +8,7 @@ ROOT = os.path.dirname(os.path.dirname(os.path.abspath(__file__)))
 # id -> (category, technique, level text, level note, design ref)
 CHECKS = {
  "C01": ("exploration", "stress workload + offline history checker over recorded write/delivery events; Go race detector",
-         "Real server/client pairs over UDP, TCP, HTTP tunnel, WebSocket tunnel, plain and TLS+SRTP stream self-describing packets while readers join, pause and leave, a raw reader keeps requests (also handler-refused ones) in flight during PLAY and publishers (direct or tunnelled) get a PAUSE refused; an offline checker over the recorded event log decides identity, order, at-most-once, completeness on reliable transports and SSRC agreement. Held on the executions made, not for all schedules.",
+         "Real server/client pairs over UDP, TCP, HTTP tunnel, WebSocket tunnel, plain and TLS+SRTP stream self-describing packets while readers join, pause and leave (one of them set up for a single media only), a raw reader keeps requests (also handler-refused ones) in flight during PLAY and publishers (direct or tunnelled) get a PAUSE refused; an offline checker over the recorded event log decides identity, order, at-most-once, completeness on reliable transports and SSRC agreement. Held on the executions made, not for all schedules.",
          "Schedules are sampled (Go scheduler under -race plus injected yields), not enumerated; UDP loss is injected by a tap. Trusted: the harness' event log and CRC'd payload ids.", "DESIGN.md section 3 C01"),
  "C02": ("exploration", "exhaustive request-sequence enumeration below a depth bound against a reference RTSP state machine (online monitor), timing cases with scaled timers; race detector",
          "Every request sequence up to the depth bound over the alphabet is sent to a real Server on a fresh connection and each response / ServerSession.State() is compared with an independent RFC 2326 A.2 state-machine model; every continuation of length 1..2 of ten deep states (with handler-refused requests), requests naming a closing session from several connections and longer samples follow; expiry / non-expiry is checked with scaled timeouts, also for tunnelled peers.",
@@ -38,13 +38,13 @@ CHECKS = {
          "Requests signed by the library's client side are verified by the library's server side for generated users / passwords / realms / nonces / methods / URLs and every method subset; each single-field perturbation must be rejected (except the documented SETUP relaxation); 401 / connection-fate behaviour is observed on real connections, including library clients that authenticate again on a second connection (redirect of the authenticated DESCRIBE, UDP-to-TCP fallback).",
          "User names without ':' and '\"' as the property states.", "DESIGN.md section 3 C10"),
  "C11": ("exploration", "grammar-aware and byte-level mutation of RTSP conversations against a live server in a child process; liveness, canary-client, goroutine / callback / registration census monitors; race detector",
-         "Mutated conversations (plus deterministic families: boundary values, handler-refused requests, one session driven from several connections, simultaneous tunnel channels, readers that stop reading / keep flooding) are logged and sent to a real Server running in a child process; monitors check process survival, answer-or-close within timeouts, a concurrently served well-behaved client, and that goroutines, sessions, UDP registrations and reader slots return to baseline after hostile connections end.",
+         "Mutated conversations (plus deterministic families: boundary values, handler-refused requests, one session driven from several connections, simultaneous tunnel channels, readers that stop reading / keep flooding, transports the configuration does not offer) are logged and sent to a real Server running in a child process; monitors check process survival, answer-or-close within timeouts, a concurrently served well-behaved client, and that goroutines, sessions, UDP registrations and reader slots return to baseline after hostile connections end.",
          "Only the mutation neighbourhood of the seed conversations is reached.", "DESIGN.md section 3 C11"),
  "C12": ("exploration", "scripted hostile server vs. real Client: return-of-every-call monitor with step bounds, goroutine / socket census after Close; race detector",
          "A scripted server plays correct transcripts with deviations (status, CSeq, headers, SDP, Transport, redirects, injected frames / requests, closes, silence, a server that stops reading, refused multicast answers) - and a real server behind a forwarder that resets or silences one connection of a tunnelled client - against a real Client; every API call must return, Close must leave no goroutine or socket, and calls after a failure must report it.",
          "Only the mutation neighbourhood of the base transcripts is reached.", "DESIGN.md section 3 C12"),
  "C13": ("fault_enumeration", "Close issued at every protocol step boundary under injected yields; callback-log checker, goroutine / socket census, watchdog; race detector",
-         "Scenarios are cut at every protocol step and Server.Close / ServerStream.Close / Client.Close / peer disconnect issued there (also ServerConn.Close from the application), concurrently with writers and joins, plus fault scenarios (multicast listener allocation failing half way, one tunnel connection reset by the network); monitors check bounded return, no leaked goroutine / listener, balanced and ordered lifecycle callbacks and no callback after OnSessionClose.",
+         "Scenarios are cut at every protocol step and Server.Close / ServerStream.Close / Client.Close / peer disconnect issued there (also ServerConn.Close from the application), concurrently with writers and joins, plus fault scenarios (multicast listener allocation failing half way, one tunnel connection reset by the network, client source port ranges whose pairs are half busy); monitors check bounded return, no leaked goroutine / listener, balanced and ordered lifecycle callbacks and no callback after OnSessionClose.",
          "Schedules sampled; 'bounded time' judged by a generous canary-guarded watchdog.", "DESIGN.md section 3 C13"),
  "C14": ("exploration", "invariant monitor over ProcessPacket2 output relative to the full input history; exhaustive sweep over all 65536 start sequence numbers",
          "For every starting sequence number and a battery of arrival plans (swap, late, burst loss, duplicates, restarts, double wrap) the real Receiver is run and its deliveries, loss counts, Stats() and receiver reports are checked against the history.",
@@ -62,10 +62,10 @@ CHECKS = {
          "Writes whose marshalled size sweeps the configured maximum are issued on every entry point, plain and SRTP; the tap asserts no datagram / frame exceeds the maximum and that refused writes transmit nothing; Start-time validation is enumerated.",
          "Sizes around the limit are enumerated, other parameters sampled.", "DESIGN.md section 3 C18"),
  "C19": ("exploration", "spoofing peers (other loopback addresses / ports / connections) with marker payloads; callback, Stats() and state monitors; race detector",
-         "Valid RTP/RTCP for a live session is sent from non-negotiated addresses and ports, and stolen session ids are replayed from other addresses / connections in every state (also while the owner's PLAY / RECORD is being handled, and between two native IPv6 addresses when the host has them); monitors check nothing reaches callbacks, statistics or timeouts and the victim is undisturbed.",
+         "Valid RTP/RTCP for a live session is sent from non-negotiated addresses and ports, and stolen session ids are replayed from other addresses / connections in every state (also while the owner's PLAY / RECORD is being handled, and between two native IPv6 addresses when the host has them; a scripted server naming a media source other than its control address); monitors check nothing reaches callbacks, statistics or timeouts and the victim is undisturbed.",
          "Loopback addresses (and one further local IPv6 address when present).", "DESIGN.md section 3 C19"),
  "C20": ("exploration", "generated URLs through a real client/server pair; handler-context, SETUP-to-media and request-line monitors",
-         "Generated stream URLs (escapes, look-alike segments, queries) are described, set up and played / recorded by a real Client against a real Server; handlers log Path / Query and the media reached by each SETUP, request lines are scanned for credentials; redirects and refusals followed by a session rebuild or another URL are covered by a third part.",
+         "Generated stream URLs (escapes, look-alike segments, queries) are described, set up and played / recorded by a real Client against a real Server; handlers log Path / Query and the media reached by each SETUP (also with a back-channel media in front of the stream), request lines are scanned for credentials; redirects and refusals followed by a session rebuild or another URL are covered by a third part.",
          "URL alphabet as described in DESIGN.md.", "DESIGN.md section 3 C20"),
 }
 
